@@ -58,6 +58,8 @@ def rand_config(r, small=False):
     c["glob_target"] = r.choice([b"", b"", b"sub/dir"])
     # a sort file only changes the layout (order, per-file storage flags), never the tree
     c["sort"] = r.getrandbits(32) if r.random() < 0.3 else None
+    # pack file lines children first: directories are created implicitly and their own line arrives later
+    c["pack_order"] = "children-first" if r.random() < 0.3 else None
     return c
 
 
@@ -212,7 +214,11 @@ def run_pack(binaries, tree, c, work, oc, env_extra=None, timeout=600, stack_kb=
                     gentree.write_spec(full, n.data or [])
         pf = os.path.join(work, "pack.txt")
         with open(pf, "wb") as f:
-            f.write(gentree.pack_file_lines(tree, locs if c["input"] == "packfile" else None,
+            order = None
+            if c.get("pack_order") == "children-first":
+                order = list(reversed(gentree.sort_paths([p for p in tree if p])))
+                oc.inc("pack_file_children_first")
+            f.write(gentree.pack_file_lines(tree, locs if c["input"] == "packfile" else None, order=order,
                                             always_quote=c.get("always_quote", False)))
         args += ["-F", pf, "-D", fdir]
         if c.get("xattr_file"):
